@@ -3,6 +3,7 @@
 
 #include "manif/impl/se2/SE2_properties.h"
 #include "manif/impl/tangent_base.h"
+#include "manif/impl/utils.h"
 
 namespace manif {
 
@@ -141,7 +142,7 @@ SE2TangentBase<_Derived>::exp(OptJacobianRef J_m_t) const
   {
     // Euler
     A = sin_theta / theta;
-    B = (Scalar(1) - cos_theta) / theta;
+    B = theta * internal::oneMinusCosByThetaSq(theta, theta_sq);
   }
 
   if (J_m_t)
@@ -160,8 +161,11 @@ SE2TangentBase<_Derived>::exp(OptJacobianRef J_m_t) const
     }
     else
     {
-      (*J_m_t)(0,2) = (-y() + theta*x() + y()*cos_theta - x()*sin_theta)/theta_sq;
-      (*J_m_t)(1,2) = ( x() + theta*y() - x()*cos_theta - y()*sin_theta)/theta_sq;
+      // C = (1 - cos_theta) / theta^2, D = (theta - sin_theta) / theta^2
+      const Scalar C = B / theta;
+      const Scalar D = theta * internal::thetaMinusSinByThetaCu(theta, theta_sq);
+      (*J_m_t)(0,2) = -y() * C + x() * D;
+      (*J_m_t)(1,2) =  x() * C + y() * D;
     }
   }
 
@@ -228,15 +232,7 @@ SE2TangentBase<_Derived>::rjacinv() const
   using std::sin;
 
   const Scalar theta = angle();
-  const Scalar cos_theta = cos(theta);
-  const Scalar sin_theta = sin(theta);
   const Scalar theta_sq = theta * theta;
-
-  Scalar A,  // theta_sin_theta
-         B;  // theta_cos_theta
-
-  A = theta*sin_theta;
-  B = theta*cos_theta;
 
   Jacobian Jrinv;
 
@@ -245,12 +241,14 @@ SE2TangentBase<_Derived>::rjacinv() const
 
   if (theta_sq > Constants<Scalar>::eps)
   {
-    Jrinv(0,0) = -A/(Scalar(2)*cos_theta-Scalar(2));
-    Jrinv(1,1) =  Jrinv(0,0);
+    // E = (1 - (theta/2) cot(theta/2)) / theta^2
+    const Scalar E = internal::oneMinusHalfThetaCotHalfThetaByThetaSq(theta, theta_sq);
 
-    Scalar den = Scalar(2)*theta*(cos_theta-Scalar(1));
-    Jrinv(0,2) = (A*x() + B*y() - theta*y() + Scalar(2)*x()*cos_theta - Scalar(2)*x()) / den;
-    Jrinv(1,2) = (-B*x() + A*y() + theta*x() + Scalar(2)*y()*cos_theta - Scalar(2)*y()) / den;
+    Jrinv(0,0) = Scalar(1) - theta_sq * E;
+    Jrinv(1,1) = Jrinv(0,0);
+
+    Jrinv(0,2) =  y()/Scalar(2) + theta * E * x();
+    Jrinv(1,2) = -x()/Scalar(2) + theta * E * y();
   }
   else
   {
@@ -276,7 +274,6 @@ SE2TangentBase<_Derived>::ljac() const
   using std::sin;
 
   const Scalar theta = angle();
-  const Scalar cos_theta = cos(theta);
   const Scalar sin_theta = sin(theta);
   const Scalar theta_sq = theta * theta;
 
@@ -293,7 +290,7 @@ SE2TangentBase<_Derived>::ljac() const
   {
     // Euler
     A = sin_theta / theta;
-    B = (Scalar(1) - cos_theta) / theta;
+    B = theta * internal::oneMinusCosByThetaSq(theta, theta_sq);
   }
 
   Jacobian Jl = Jacobian::Identity();
@@ -309,8 +306,11 @@ SE2TangentBase<_Derived>::ljac() const
   }
   else
   {
-    Jl(0,2) = ( y() + theta*x() - y()*cos_theta - x()*sin_theta)/theta_sq;
-    Jl(1,2) = (-x() + theta*y() + x()*cos_theta - y()*sin_theta)/theta_sq;
+    // C = (1 - cos_theta) / theta^2, D = (theta - sin_theta) / theta^2
+    const Scalar C = B / theta;
+    const Scalar D = theta * internal::thetaMinusSinByThetaCu(theta, theta_sq);
+    Jl(0,2) =  y() * C + x() * D;
+    Jl(1,2) = -x() * C + y() * D;
   }
 
   return Jl;
@@ -325,15 +325,7 @@ SE2TangentBase<_Derived>::ljacinv() const
   using std::sin;
 
   const Scalar theta = angle();
-  const Scalar cos_theta = cos(theta);
-  const Scalar sin_theta = sin(theta);
   const Scalar theta_sq = theta * theta;
-
-  Scalar A,  // theta_sin_theta
-         B;  // theta_cos_theta
-
-  A = theta*sin_theta;
-  B = theta*cos_theta;
 
   Jacobian Jlinv;
 
@@ -342,12 +334,14 @@ SE2TangentBase<_Derived>::ljacinv() const
 
   if (theta_sq > Constants<Scalar>::eps)
   {
-    Jlinv(0,0) = -A/(Scalar(2)*cos_theta-Scalar(2));
-    Jlinv(1,1) =  Jlinv(0,0);
+    // E = (1 - (theta/2) cot(theta/2)) / theta^2
+    const Scalar E = internal::oneMinusHalfThetaCotHalfThetaByThetaSq(theta, theta_sq);
 
-    Scalar den = Scalar(2)*theta*(cos_theta-Scalar(1));
-    Jlinv(0,2) = (A*x() - B*y() + theta*y() + Scalar(2)*x()*cos_theta - Scalar(2)*x()) / den;
-    Jlinv(1,2) = (B*x() + A*y() - theta*x() + Scalar(2)*y()*cos_theta - Scalar(2)*y()) / den;
+    Jlinv(0,0) = Scalar(1) - theta_sq * E;
+    Jlinv(1,1) = Jlinv(0,0);
+
+    Jlinv(0,2) = -y()/Scalar(2) + theta * E * x();
+    Jlinv(1,2) =  x()/Scalar(2) + theta * E * y();
   }
   else
   {
